@@ -29,7 +29,8 @@ def _cdiv(a, b):
 
 ARITH = {"+": lambda a, b: a + b, "-": lambda a, b: a - b, "*": lambda a, b: a * b, "&": lambda a, b: a & b, "|": lambda a, b: a | b,
          "^": lambda a, b: a ^ b, "<<": lambda a, b: a << b if 0 <= b < 64 else None, ">>": lambda a, b: a >> b if 0 <= b < 64 else None,
-         "/": lambda a, b: _cdiv(a, b) if b != 0 else None, "%": lambda a, b: a - b * _cdiv(a, b) if b != 0 else None}
+         "/": lambda a, b: (None if b == 0 else (a / b if isinstance(a, float) or isinstance(b, float) else _cdiv(a, b))),
+         "%": lambda a, b: a - b * _cdiv(a, b) if b != 0 and not isinstance(a, float) and not isinstance(b, float) else None}
 
 
 def ev(n, env):
@@ -82,6 +83,9 @@ def ev(n, env):
         return ev(n[2], env) if c else ev(n[3], env)
     if t == ",":
         return ev(n[-1], env)
+    if t in ("+=", "-=", "*=", "/=", "%=", "<<=", ">>=", "&=", "|=", "^=", "upre++", "upre--") and len(n) >= 2:
+        # executed already as an element of its own: the value of the expression is the object's value now
+        return env.get(n[1]) if n[1] in env else None
     if t == "=" and len(n) == 3:
         # the element that performed the assignment has been executed already: the value is the object's
         return env[n[1]] if n[1] in env else ev(n[2], env)
@@ -89,7 +93,7 @@ def ev(n, env):
 
 
 class Walker:
-    """tracked: {term: (signed, bits)} -- the terms that carry values (others are unknown and stores to them ignored).
+    """tracked: {term: (signed, bits) or "float"} -- the terms that carry values (others are unknown and stores to them ignored).
     stop(elem) -> True ends a run at that element (before executing it).
     choose(cond_elem, env) -> True / False / None: the edge to take for a condition whose value is unknown (None: both)."""
 
@@ -102,7 +106,11 @@ class Walker:
 
     def _store(self, env, tgt, v):
         if tgt in self.tracked:
-            if v is not None:
+            if v is not None and self.tracked[tgt] == "float":
+                v = float(v)
+            elif v is not None:
+                if isinstance(v, float):
+                    v = int(v)          # conversion to an integer type truncates towards zero
                 signed, bits = self.tracked[tgt]
                 if not signed:
                     v &= (1 << bits) - 1
